@@ -7,6 +7,7 @@ import Penguin.Model.Mux
 import Penguin.Lemmas.MuxBasic
 import Penguin.Lemmas.MuxStep
 import Penguin.Lemmas.MuxOnceB
+import Penguin.Lemmas.BindPair
 
 namespace Penguin.C15
 open Penguin Penguin.Mux
@@ -124,5 +125,81 @@ example : doneB (runOpsEv { opts := {}, rng := [7, 8, 9] } bops).2 = [1, 2, 3] :
 
 /-! Non-vacuity -/
 example : (appBindReq { opts := {}, rng := [7] } 1 .stream [0x61] 80).1.outq = [.frame (.bind 7 .stream 80 [0x61])] := by decide
+
+/-! ### Two endpoints: the answer IS the peer application's decision on that very request
+
+`Model/BindPair`: two endpoint models joined by two FIFO wires, every interleaving of application
+calls (`request_bind`, `next_bind_request`, `reply`, dropping a `BindRequest`), single messages handed
+to the transport, single frames processed, completed hand-overs to a full bind queue; both sides ask
+and answer, any number of requests at a time, any queue sizes, binds enabled or not.  The ghost
+history records what the applications did and saw.  `Lemmas/BindDir`, `BindInj`, `BindPair`. -/
+
+open Penguin.BindPair in
+/-- What the resolution of request `req` of the asking side (`p.a`) means at the answering side
+    (`p.b`, whose `bind_buffer_size` is `peerCap`). -/
+def ResolvedAsDecided (peerCap : Nat) (p : BindPair.PS) (req : Nat) : Prop :=
+  ((req, BindRes.accepted) ∈ p.ga.results →
+      ∃ k b, (req, k) ∈ p.gb.links ∧ p.b.held[k]? = some b ∧ recOf req b ∈ p.ga.asked ∧
+             k ∈ p.gb.accepted ∧ k ∉ p.gb.rejected) ∧
+  ((req, BindRes.refused) ∈ p.ga.results →
+      peerCap = 0 ∨ ∃ k b, (req, k) ∈ p.gb.links ∧ p.b.held[k]? = some b ∧ recOf req b ∈ p.ga.asked ∧
+             k ∈ p.gb.rejected ∧ k ∉ p.gb.accepted)
+
+/-- `true` iff the peer accepted that very request: in every reachable state of the pair, a request
+    that resolved `true` was shown to the peer application as `BindRequest` number `k` with exactly
+    the asked type, host bytes and port under the requester's flow id (`recOf req b` is the asked
+    record), and the peer application answered THAT `BindRequest` with `reply(true)` and did not
+    reject it; one that resolved `false` met a peer that takes no binds, or its `BindRequest` was
+    rejected or dropped unanswered and not accepted.  In both directions. -/
+theorem pair_bind_resolves_with_the_peers_decision (oa ob : Opts) (ra rb : List Nat)
+    (acts : List (BindPair.Side × BindPair.Act)) (req : Nat) :
+    ResolvedAsDecided ob.bindCap (BindPair.run (BindPair.init oa ob ra rb) acts) req ∧
+    ResolvedAsDecided oa.bindCap (BindPair.run (BindPair.init oa ob ra rb) acts).swap req := by
+  have h := BindPair.reachable_inv oa ob ra rb acts
+  exact ⟨⟨BindPair.accepted_means_peer_accepted h req, BindPair.refused_means_peer_refused h req⟩,
+         ⟨BindPair.accepted_means_peer_accepted h.swap req, BindPair.refused_means_peer_refused h.swap req⟩⟩
+
+/-- The peer application is shown exactly what was asked: every `BindRequest` it ever receives is,
+    field for field and under the requester's flow id, a request the other application made; the
+    pairing of requests and `BindRequest`s is one-to-one (no request is shown twice, none is
+    invented, none stands for two).  In both directions. -/
+theorem pair_bind_peer_is_shown_exactly_the_requests (oa ob : Opts) (ra rb : List Nat)
+    (acts : List (BindPair.Side × BindPair.Act)) :
+    let p := BindPair.run (BindPair.init oa ob ra rb) acts
+    (∀ (k : Nat) (b : BindIn), p.b.held[k]? = some b → ∃ req, (req, k) ∈ p.gb.links ∧ BindPair.recOf req b ∈ p.ga.asked) ∧
+    (∀ (k : Nat) (b : BindIn), p.a.held[k]? = some b → ∃ req, (req, k) ∈ p.ga.links ∧ BindPair.recOf req b ∈ p.gb.asked) ∧
+    (p.gb.links.map (·.1)).Nodup ∧ (p.gb.links.map (·.2)).Nodup ∧
+    (p.ga.links.map (·.1)).Nodup ∧ (p.ga.links.map (·.2)).Nodup := by
+  intro p
+  have h := BindPair.reachable_inv oa ob ra rb acts
+  exact ⟨BindPair.shown_is_asked h, BindPair.shown_is_asked h.swap,
+         (BindPair.links_one_to_one h).1, (BindPair.links_one_to_one h).2,
+         (BindPair.links_one_to_one h.swap).1, (BindPair.links_one_to_one h.swap).2⟩
+
+/-- The flow id is free for reuse afterwards, on both endpoints: once the requester holds no slot
+    for an id, no answer for it is queued or on the wire, the peer's bind queue has no request under
+    it, and no `BindRequest` under it awaits the peer application's decision — a new request drawn
+    with the same id starts clean. -/
+theorem pair_bind_id_is_free_afterwards (oa ob : Opts) (ra rb : List Nat)
+    (acts : List (BindPair.Side × BindPair.Act)) (x : Nat) :
+    let p := BindPair.run (BindPair.init oa ob ra rb) acts
+    lookup p.a.flows x = none →
+      (.frame (.finish x)) ∉ p.ba ++ p.b.outq ∧ (.frame (.reset x)) ∉ p.ba ++ p.b.outq ∧
+      (∀ c ∈ p.b.bindq, c.fid ≠ x) ∧
+      (∀ (k : Nat) (b : BindIn), p.b.held[k]? = some b → b.pending = true → b.fid ≠ x) := by
+  intro p hx
+  exact BindPair.resolved_id_is_free (BindPair.reachable_inv oa ob ra rb acts) x hx
+
+/-! Non-vacuity: A asks twice (ids 7 and 8); B's application takes both, answers the SECOND first
+    (accept) and drops the first unanswered; both answers travel back: request 2 resolved `true`,
+    request 1 `false`, and the links pair request 1 with `BindRequest` 0 and request 2 with 1. -/
+private def pacts : List (BindPair.Side × BindPair.Act) :=
+  [(.A, .bindReq 1 .stream [97] 80), (.A, .bindReq 2 .datagram [98] 81), (.A, .xmit), (.A, .xmit),
+   (.B, .recv), (.B, .recv), (.B, .bindNext), (.B, .bindNext), (.B, .bindReply 1 true), (.B, .bindDrop 0),
+   (.B, .xmit), (.B, .xmit), (.A, .recv), (.A, .recv)]
+private def pfin : BindPair.PS := BindPair.run (BindPair.init {} { bindCap := 2 } [7, 8] []) pacts
+example : pfin.ga.results = [(2, .accepted), (1, .refused)] := by decide
+example : pfin.gb.links = [(1, 0), (2, 1)] ∧ pfin.gb.accepted = [1] ∧ pfin.gb.rejected = [0] := by decide
+example : pfin.a.flows = [] ∧ pfin.ba = [] ∧ pfin.b.outq = [] := by decide
 
 end Penguin.C15
